@@ -609,6 +609,35 @@ ROWS = [
 ]
 
 
+def lookup_rule(ctx, hugr, file, rule="C04.R2") -> None:
+    """hugr[node] of an index that was never allocated is a KeyError (Mapping protocol: `in`, get, the queries): the table is read
+    inside a try that turns IndexError into the absent case, or under a test that the index is below the table's length"""
+    q = f"{HQ}.__getitem__"
+    fn, mod, _ = ctx.locate(q)
+    cf = ctx.cfn(q, subst=False)
+    kp = fn.args.args[1].arg
+    reads = [n for n in ast.walk(cf) if isinstance(n, ast.Subscript) and u(n.value) == "self._nodes" and isinstance(n.ctx, ast.Load)]
+    protected = set()
+    for t in [n for n in ast.walk(cf) if isinstance(n, ast.Try)]:
+        if any(h.type is None or any(x in u(h.type) for x in ("IndexError", "LookupError", "Exception")) for h in t.handlers):
+            for b in t.body:
+                protected |= {id(n) for n in ast.walk(b)}
+    ok = bool(reads)
+    why = ""
+    if any(id(r) not in protected for r in reads):
+        accepted = {(f"{kp}.idx < len(self._nodes)", True), (f"{kp}.idx >= len(self._nodes)", False), (f"len(self._nodes) > {kp}.idx", True), (f"len(self._nodes) <= {kp}.idx", False)}
+        for p in ctx.paths(q):
+            if p.kind == "raise" and "KeyError" in p.value_text():
+                continue
+            if not any((u(t), k) in accepted for t, k in p.tests):
+                ok = False
+                why = p.describe()[:160]
+                break
+    ctx.check(ok, rule, "Hugr.__getitem__: unallocated index is a KeyError", file, fn.lineno,
+              "the node table is indexed outside a try that catches IndexError and without the test `idx < len(self._nodes)`: the index one past "
+              "the end (or beyond) raises IndexError instead of KeyError, so `node in hugr` and `hugr.get(node)` raise for it" + (f" [{why}]" if why else ""), fn)
+
+
 def r7_listings(ctx, hugr, file) -> None:
     """the per-node listings alone (for properties that search them): outgoing_links / incoming_links enumerate the value ports 0..n-1"""
     for name, table, direction in (("outgoing_links", "self._links.fwd", "Direction.OUTGOING"), ("incoming_links", "self._links.bck", "Direction.INCOMING")):
@@ -898,6 +927,7 @@ def run(ctx) -> None:
     file = hugr.module.path
     r1_who_may_write(ctx)
     r2_pairing(ctx, hugr, file)
+    lookup_rule(ctx, hugr, file)
     parentless_nodes_rule(ctx, hugr, file)
     r3_dense_suboffsets(ctx, hugr, file)
     r4_deletion_complete(ctx, hugr, file)
